@@ -144,7 +144,9 @@ def h_kind(vm, mir, chunk, bounded):
     text, spec = chunk[i][0], chunk[i][1]
     holes = {}
     for k in spec:
-        if k.startswith('n'):
+        if k.startswith('n') and bounded == 'long':
+            holes[k] = {'n1': 5.0, 'n2': 2.0, 'n3': 1.0}.get(k, 1.0)          # this run is about long texts: numbers are concrete, so every rendering is concrete text
+        elif k.startswith('n'):
             holes[k] = x = num_hole(vm, k)
             # the second operand may be an index / repeat count: values whose only effect is a huge allocation are outside the property (resource bounds)
             if k == 'n3' or spec[k].get('index'): vm.assume(z3.Or(z3.fpLEQ(x, z3.FPVal(3.0, F64)), z3.fpGEQ(x, z3.FPVal(6e17, F64)), z3.fpIsNaN(x)))
